@@ -31,6 +31,8 @@ pub enum Blob {
     NonTx,
     /// arbitrary bytes of the given length (AEAD failure)
     Raw(u16),
+    /// ciphertext (right key) of P(k)'s bytes followed by one more byte: authenticates, is not a transaction
+    TxPlusTrailing,
 }
 
 pub fn make_blob(disp: u8, blob: Blob) -> Vec<u8> {
@@ -44,29 +46,36 @@ pub fn make_blob(disp: u8, blob: Blob) -> Vec<u8> {
             let other = txid_of(TxName::D(if disp == 1 { 2 } else { 1 }));
             cryptography::encrypt(&build_tx(TxName::P(disp)), &other).unwrap()
         }
-        Blob::NonTx => encrypt_raw(b"this is not a bitcoin transaction", &d),
+        Blob::NonTx => aead_encrypt(b"this is not a bitcoin transaction", &d),
+        Blob::TxPlusTrailing => {
+            let mut bytes = bitcoin::consensus::serialize(&build_tx(TxName::P(disp)));
+            bytes.push(0);
+            aead_encrypt(&bytes, &d)
+        }
         Blob::Raw(n) => (0..n).map(|i| (i % 251) as u8 ^ 0x5a).collect(),
     }
 }
 
-/// ChaCha20-Poly1305 of arbitrary bytes under the tower's key derivation. `cryptography::encrypt`
-/// only takes transactions, so we build a transaction-free ciphertext by encrypting a transaction
-/// and replacing... not possible (AEAD). Instead we search nothing: we encrypt via the same
-/// primitive by abusing a transaction whose serialisation is followed by trailing garbage is not
-/// possible either; so this helper uses a script-carrying transaction whose *decryption* succeeds
-/// but whose bytes we corrupt before encrypting through the public API: unreachable. We therefore
-/// fall back to a ciphertext that authenticates but does not parse: an `encrypt` of a transaction
-/// with zero inputs, which rust-bitcoin refuses to deserialize as a legacy transaction.
-fn encrypt_raw(_bytes: &[u8], key: &Txid) -> Vec<u8> {
-    use bitcoin::absolute::LockTime;
-    use bitcoin::transaction::Version;
-    let tx = Transaction {
-        version: Version::TWO,
-        lock_time: LockTime::ZERO,
-        input: vec![],
-        output: vec![],
-    };
-    cryptography::encrypt(&tx, key).unwrap()
+/// The harness's own ChaCha20-Poly1305 (key = SHA256(dispute txid), nonce = 0) of arbitrary bytes, independent of the
+/// implementation's `encrypt` (the documented scheme of the protocol).
+pub fn aead_encrypt(bytes: &[u8], key: &Txid) -> Vec<u8> {
+    use bitcoin::hashes::{sha256, Hash};
+    use chacha20poly1305::aead::{Aead, NewAead};
+    use chacha20poly1305::{ChaCha20Poly1305, Key, Nonce};
+    let k = sha256::Hash::hash(key.as_byte_array());
+    ChaCha20Poly1305::new(Key::from_slice(k.as_byte_array())).encrypt(&Nonce::default(), bytes).unwrap()
+}
+
+/// What a blob of this kind must decrypt to under its dispute's id (None: it must fail), known from how it was made
+/// rather than from the implementation's `decrypt`.
+pub fn expected_plain(disp: u8, blob: Blob) -> Option<Txid> {
+    match blob {
+        Blob::Valid => Some(crate::sim::txid_of(TxName::P(disp))),
+        Blob::Alt => Some(crate::sim::txid_of(TxName::PAlt(disp))),
+        Blob::Large => Some(crate::sim::txid_of(TxName::PLarge(disp))),
+        Blob::Bad => Some(crate::sim::txid_of(TxName::PBad(disp))),
+        Blob::WrongKey | Blob::NonTx | Blob::Raw(_) | Blob::TxPlusTrailing => None,
+    }
 }
 
 #[derive(Clone, Debug, PartialEq, Eq, Hash, PartialOrd, Ord, serde::Serialize, serde::Deserialize)]
